@@ -486,7 +486,7 @@ template<class T> constexpr T spice(T*t) {return *t;}
             data.reply(loc, obj->name ? "T" : "F"); \
         } else { \
             if(obj->name != rtosc_argument(msg, 0).T) { \
-                data.broadcast(loc, args);\
+                data.broadcast(loc, rtosc_argument(msg, 0).T ? "T" : "F");\
                 obj->name = rtosc_argument(msg, 0).T; \
                 rChangeCb; \
             } \
@@ -555,7 +555,7 @@ template<class T> constexpr T spice(T*t) {return *t;}
             data.reply(loc, obj->name[idx] ? "T" : "F"); \
         } else { \
             if(obj->name[idx] != rtosc_argument(msg, 0).T) { \
-                data.broadcast(loc, args);\
+                data.broadcast(loc, rtosc_argument(msg, 0).T ? "T" : "F");\
                 rChangeCb; \
             } \
             obj->name[idx] = rtosc_argument(msg, 0).T; \
@@ -566,7 +566,7 @@ template<class T> constexpr T spice(T*t) {return *t;}
             data.reply(loc, obj->name[idx].member ? "T" : "F"); \
         } else { \
             if(obj->name[idx].member != rtosc_argument(msg, 0).T) { \
-                data.broadcast(loc, args);\
+                data.broadcast(loc, rtosc_argument(msg, 0).T ? "T" : "F");\
                 rChangeCb; \
             } \
             obj->name[idx].member = rtosc_argument(msg, 0).T; \
